@@ -8,6 +8,9 @@
 //	C05 (exit status 6)  once the container is quiet and has no context, no instance is inside the function any more
 //	                     (every instance waits for its context to end before it returns)
 //
+// Three phases: a RoutineContainer and a StateRoutineContainer with a constant retry delay of 1 ms, and a
+// RoutineContainer with a retry delay of exactly ZERO.
+//
 // Output (-out): a one-line description of the violation.
 package routinex
 
@@ -26,6 +29,7 @@ import (
 
 	ubackoff "github.com/aperturerobotics/util/backoff"
 	"github.com/aperturerobotics/util/routine"
+	cbackoff "github.com/cenkalti/backoff/v4"
 	"verif/harness/hist"
 )
 
@@ -40,13 +44,19 @@ type freeRt struct {
 	seq    atomic.Uint64
 	inside atomic.Int32
 	n      atomic.Int64
-	bad    atomic.Value
+	bad    atomic.Value // first failure of the kind this run looks for (any kind when -free_want is 0)
 	code   atomic.Int32
+	want   int32
+	other  atomic.Int32 // failures of the other kind (skipped)
 	mu     sync.Mutex
 	insts  []*freeInst
 }
 
 func (f *freeRt) fail(code int32, msg string) {
+	if f.want != 0 && f.want != code {
+		f.other.Add(1)
+		return
+	}
 	if f.bad.CompareAndSwap(nil, msg) {
 		f.code.Store(code)
 	}
@@ -114,13 +124,17 @@ func TestRoutineFree(t *testing.T) {
 	want := int32(*hist.FreeWant)
 	stats := map[string]int{}
 	var failed *freeRt
-	for phase := 0; phase < 2 && failed == nil; phase++ {
-		f := &freeRt{}
+	for phase := 0; phase < 3 && failed == nil; phase++ {
+		f := &freeRt{want: want}
 		retry := routine.WithRetry(&ubackoff.Backoff{BackoffKind: ubackoff.BackoffKind_BackoffKind_CONSTANT, Constant: &ubackoff.Constant{Interval: 1}})
+		if phase == 2 {
+			// a retry delay of exactly zero (the scheduled harness and the model of the routine slice do not cover it)
+			retry = routine.WithBackoff(&cbackoff.ZeroBackOff{})
+		}
 		ctx, cancel := context.WithCancel(context.Background())
 		var ops []func(r *rand.Rand, wg *sync.WaitGroup)
 		var clear func()
-		if phase == 0 {
+		if phase != 1 {
 			rc := routine.NewRoutineContainer(retry)
 			rc.SetContext(ctx, true)
 			clear = func() { rc.ClearContext() }
@@ -172,7 +186,7 @@ func TestRoutineFree(t *testing.T) {
 			}
 		}
 		var wg sync.WaitGroup
-		stop := time.Now().Add(dur / 2)
+		stop := time.Now().Add(dur / 3)
 		var calls atomic.Int64
 		for g := 0; g < 6; g++ {
 			wg.Add(1)
@@ -202,7 +216,8 @@ func TestRoutineFree(t *testing.T) {
 		cancel()
 		stats[fmt.Sprintf("free.phase%d.calls", phase)] = int(calls.Load())
 		stats[fmt.Sprintf("free.phase%d.function_entries", phase)] = int(f.n.Load())
-		if f.bad.Load() != nil && (want == 0 || want == f.code.Load()) {
+		stats[fmt.Sprintf("free.phase%d.failures_of_the_other_kind_skipped", phase)] = int(f.other.Load())
+		if f.bad.Load() != nil {
 			failed = f
 		}
 	}
